@@ -387,3 +387,11 @@ META.update({
     "C15": {"run": files.run_c15, "rule": "well-formed generated program files x the 8 CLI option combinations x file mode / piped mode through the real abasic binary (stdout, stderr, exit status; banner and prompts canonicalised); SourceFileAnalyzer::analyze(..).into_interpreter() vs line-by-line entry in process (LIST, RUN, snapshots)",
             "trusted_base": TB_COMMON, "assumptions": ASSUME_COMMON + ["process I/O, rustyline and colour codes are exercised, not modelled"]},
 })
+
+
+from . import lsp  # noqa: E402
+
+META.update({
+    "C20": {"run": lsp.run_c20, "rule": "the real abasic-lsp binary over stdio: initialize, then 3-8 didOpen / didChange notifications over two URIs with 14 fixed documents (non-ASCII strings, comments and DATA, multi-byte illegal characters, duplicate numbers whose later definition is empty or untokenizable, CRLF, line 2^64-1, 300-deep nesting) and generated files (C05's shapes), a semanticTokens/full request after 80% of them; per answer: diagnostics on existing lines with start <= end <= line width in UTF-16 units, equal (as a multiset of line/columns/severity) to the analyzer's messages for the LATEST text with columns computed independently, token data decoding to in-bounds, ordered, non-overlapping tokens with legend types, equal to the analyzer's token classes; finally a request for a never-opened document is answered with an error and shutdown/exit end the process with status 0; the model's diagnostics_of / semantic_tokens_of must equal the server's answers",
+            "trusted_base": TB_COMMON, "assumptions": ASSUME_COMMON + ["a document's lines are its LF-separated pieces (the server's notion); JSON-RPC framing and the lsp-server threads are exercised, not modelled; malformed notifications are outside the property's quantifier"]},
+})
